@@ -425,7 +425,8 @@ impl Ctx {
                    distinct_override: Option<u64>, floors: &[(&str, f64)], t0: Instant, extra: Value) {
         let distinct = distinct_override.unwrap_or(stats.distinct.len() as u64);
         let ev = stats.evaluations.max(1) as f64;
-        for (label, floor) in floors {
+        let part_failed = self.violations.lock().unwrap().iter().any(|v| v.part == spec_name);
+        for (label, floor) in floors.iter().filter(|_| !part_failed) {
             let n = stats.labels.get(label).copied().unwrap_or(0) as f64;
             if n / ev < *floor {
                 self.inconclusive(format!(
@@ -471,7 +472,8 @@ impl Ctx {
         for f in files {
             let Ok(text) = std::fs::read_to_string(&f) else { continue };
             let Ok(v) = serde_json::from_str::<Value>(&text) else { continue };
-            if v.get("part").and_then(|p| p.as_str()) != Some(part) {
+            // "ops" also replays files recorded by "ops-exhaustive" / "ops/libfuzzer" (same case type)
+            if !v.get("part").and_then(|p| p.as_str()).map(|p| p.starts_with(part)).unwrap_or(false) {
                 continue;
             }
             let case: C = match serde_json::from_value(v["case"].clone()) {
